@@ -342,6 +342,13 @@ let seqsection_line line =
      | M.RPanic _ -> "panic")
   | _ -> "bad"
 
+(* rawblock <body-hex> : a compressed block body with raw literals, taken apart by the decoder model and written again *)
+let rawblock_line line =
+  match M.rewrite_raw_block (unhex (String.trim line)) with
+  | M.ROk (h, again) -> Printf.sprintf "ok %s %s" (if h then "1" else "0") (hex again)
+  | M.RErr _ -> "err"
+  | M.RPanic _ -> "panic"
+
 (* ---- Huffman literal stream: hufstream <c,n c,n ...|-> <data-hex> ; hufdec <encoded-hex> ---- *)
 let hufstream_line line =
   match List.filter (fun x -> x <> "") (split_on ' ' line) with
@@ -383,6 +390,7 @@ let () =
     | "io" -> io_line
     | "seqenc" -> seqenc_line
     | "seqsection" -> seqsection_line
+    | "rawblock" -> rawblock_line
     | "hufstream" -> hufstream_line
     | "hufdec" -> hufdec_line
     | "fsedesc" -> fsedesc_line
